@@ -144,14 +144,22 @@ def exec_map(case):
 
 
 def exec_run(case):
-    from tensorly.decomposition import constrained_parafac
+    from tensorly.decomposition import constrained_parafac, ConstrainedCP
     n, items, r = case["n"], case["items"], case["run"]
     t = run_tensor(tuple(r["shape"]), r["data"], case["seed"])
     np.random.seed(case["seed"] % (2**31))      # init='random' draws from the global stream (F-16a)
     ev = {"id": case["id"], "op": "run", "n": n, "items": items, "run": r, "raised": False, "exc": "", "factors": []}
+    init = r["init"]
+    if init == "user":      # entrywise non-negative user start (weights None = ones)
+        urng = np.random.RandomState((case["seed"] + 17) % (2**31))
+        init = (None, [np.abs(urng.randn(d, r["rank"])) + 0.05 for d in r["shape"]])
+    opts = dict(n_iter_max=r["outer"], n_iter_max_inner=r["inner"], init=init, random_state=case["seed"] % (2**31),
+                fixed_modes=list(r["fixed"]) if r["fixed"] else None, **kwargs_of(n, items))
     try:
-        cp = constrained_parafac(t, r["rank"], n_iter_max=r["outer"], n_iter_max_inner=r["inner"], init=r["init"],
-                                 random_state=case["seed"] % (2**31), **kwargs_of(n, items))
+        if r["via"] == "class":
+            cp = ConstrainedCP(r["rank"], **opts).fit_transform(t)
+        else:
+            cp = constrained_parafac(t, r["rank"], **opts)
         ev["factors"] = [measure(f) for f in cp.factors]
     except Exception as ex:
         ev["raised"], ev["exc"] = True, type(ex).__name__
@@ -215,14 +223,15 @@ def run(chk, opts):
         return sorted(v["$set"], key=str) if isinstance(v, dict) else list(v)
     runcfgs = {}
     for n, d in dom.items():
-        runcfgs[n] = [dict(shape=list(sh), rank=rk, init=ini, outer=o, inner=inn, data=da)
-                      for sh, rk, ini, o, inn, da in itertools.product(setof(d["shapes"]), setof(d["ranks"]), setof(d["inits"]),
-                                                                      setof(d["outer"]), setof(d["inner"]), setof(d["data"]))]
+        runcfgs[n] = [dict(shape=list(sh), rank=rk, init=ini, outer=o, inner=inn, data=da, fixed=list(fx), via=via)
+                      for sh, rk, ini, o, inn, da, fx, via in itertools.product(
+                          setof(d["shapes"]), setof(d["ranks"]), setof(d["inits"]), setof(d["outer"]), setof(d["inner"]),
+                          setof(d["data"]), setof(d["fixed"]), setof(d["via"]))]
     accepted = [c for c in specs if not c["rej"] and has_hard_request(c)]
     singles = [c for c in accepted if len(c["items"]) == 1]
     pairs = [c for c in accepted if len(c["items"]) == 2]
-    per_single = int(opts.get("per_single", 0)) or (72 if thorough else 4)
-    npairs = int(opts.get("pairs", 0)) or (24000 if thorough else 2000)
+    per_single = int(opts.get("per_single", 0)) or (72 if thorough else 6)
+    npairs = int(opts.get("pairs", 0)) or (24000 if thorough else 3000)
     picked = []
     for c in singles:
         cfgs = runcfgs[c["n"]]
@@ -266,7 +275,7 @@ def run(chk, opts):
     chk.rule = ("binding 1: ALL %d specifications exported from TLC's design run of Constraints.tla (<=2 keywords x scalar/list/dict x every "
                 "mode subset, orders 3-4; %d are Reject) through validate_constraints per mode + constrained_parafac(1,1); "
                 "binding 2: %d decomposition runs = every accepted single-keyword hard specification x %d run configurations drawn from "
-                "the spec's run domain (shape x rank x init x outer{1,2,5} x inner{1,10} x data{signed,sparse,allneg}) + %d two-keyword "
+                "the spec's run domain (shape x rank x init{svd,random,user} x outer{1,2,5} x inner{1,10} x data{signed,sparse,allneg} x fixed_modes{every subset of 0..n-2} x via{function,ConstrainedCP}) + %d two-keyword "
                 "specifications stratified over (kinds, forms); distinct = distinct (specification, run configuration) pairs"
                 % (len(specs), nrej, len(cases) - nmap, per_single, got))
     for e in events:
@@ -278,7 +287,7 @@ def run(chk, opts):
     for rid, clause, extra in chk.validate("ConstraintsTrace", events):
         chk.violation(rid, clause, event=by_id.get(rid), extra=extra_of(by_id.get(rid), extra))
     chk.exhaustive = False      # the mapping domain is exhaustive, data / budgets are sampled
-    chk.assumptions += ["NumPy backend only", "no fixed_modes, no user initialisation (C14 covers them)",
+    chk.assumptions += ["NumPy backend only", "a constraint requested on a fixed mode imposes nothing on the returned factor (documented: the initial value is not modified; C14)",
                         "inner budget >= 1 (admm(n_iter_max=0) raises before returning)",
                         "a LinAlgError raised by the linear solves carries no obligation (nothing is returned)",
                         "scope-ambiguous kinds (hard/normalised sparsity, max-normalisation, monotone direction): either documented reading accepted"]
